@@ -45,6 +45,8 @@ def gen_probe():
     @st.composite
     def g(draw):
         sp = draw(base)
+        # "for all seeds": also integers beyond 32 bits and negative ones (clock-based seeds)
+        sp["seed"] = draw(st.one_of(st.integers(0, 2**20), st.integers(0, 2**20), st.integers(2**32, 2**32 + 2**20), st.integers(-2**20, -1)))
         sp["chains"] = draw(st.sampled_from([1, 2, 2, 3, 3, 4]))
         kkeys = [k for kk in sp["kernels"] for k in kk["keys"]]
         sp["as_key"] = draw(st.booleans())
